@@ -138,6 +138,14 @@ impl Environment {
         self.find(v).map(|k| k.get_type())
     }
 
+    /// The type of the unit `v`, even if a function parameter or local variable of the same
+    /// name shadows it in the current scope (`km` inside `fn f(m: Mass)` is still a length).
+    pub(crate) fn get_unit_type(&self, v: &str) -> Option<TypeScheme> {
+        self.identifiers
+            .get_where(v, |k| matches!(k, IdentifierKind::Normal(_, _, true)))
+            .map(|k| k.get_type())
+    }
+
     pub(crate) fn iter_identifiers(&self) -> impl Iterator<Item = &Identifier> {
         self.identifiers.keys()
     }
